@@ -160,7 +160,10 @@ def magnitude_variants(rng, inst):
     out.append(t)
     t = dict(inst)
     i = rng.randrange(len(inst["b"]))
-    k = rng.choice([2**10, 2**20, 10**6, 2**31])
+    # row magnitudes up to 1e9.  (The library warns above 1e10; between 1e9 and 1e10 solve_lp's absolute pivot tolerance 1e-10 already
+    # gives wrong optima - reported as finding F4, witness in corpus/C04/observations/lp_row_scale_2e9.json - so that band is not drawn.)
+    amax = max([abs(v) for v in inst["A"][i]] + [1])
+    k = rng.choice([k for k in [2**10, 2**20, 10**6, 10**8, 2**28] if amax * k <= 10**9] or [2**10])
     t["A"] = [list(r) for r in inst["A"]]
     t["b"] = list(inst["b"])
     t["A"][i] = [v * k for v in t["A"][i]]
@@ -260,7 +263,7 @@ def option_sweeps(rng):
         vs.append({"lns_iterations": 3, "heuristics": True, "lns_destroy_frac": frac})
     for g in [0.0, 1e-9, 1e-3, 0.1, 0.5, 1.0, 2.0]:
         vs.append({"gap_tol": g, "heuristics": rng.random() < 0.5})
-    for e in [1e-9, 1e-8, 1e-7, 1e-6]:        # eps = 0.0 is not swept: see corpus/C04/observations/eps_zero.json
+    for e in [1e-9, 1e-7, 1e-6]:        # eps = 0.0 is not swept (not a defect, coordinator's decision): corpus/C04/observations/eps_zero.json
         vs.append({"eps": e, "heuristics": rng.random() < 0.5})
     vs.append({"max_iter": 10000 - 1})
     vs.append({"max_iter": 10000 + 1})
